@@ -25,6 +25,8 @@ func init() {
 
 func runC14(c *eng.Ctx) {
 	p := c.P
+	deltaWidthCoversEveryDelta(c)
+	fixedOffsetReadsItsOwnBytes(c)
 	specs := []resetSpec{
 		{T: "pkg/bit.Writer", Entries: []string{"pkg/bit.Writer.Reset"}, Ctors: []string{"pkg/bit.NewWriter"}},
 		{T: "pkg/bit.Reader", Entries: []string{"pkg/bit.Reader.Reset"}, Ctors: []string{"pkg/bit.NewReader"},
